@@ -1,4 +1,5 @@
 import Xsm.Proofs.Lifecycle
+import Xsm.Proofs.Termination
 /-
 Helper definitions and lemmas for C04: what a drain receives, in which order, and what it writes.
 -/
@@ -33,23 +34,23 @@ theorem asyncProcessed_queue (m : Machine) (u : UEnv) (e : Ev) (s : St) :
     (processEvent (hooksAsync u m) .async m u e (emit ("#recv:" ++ e.type) s))
   exact queueRel_eng.trans (a := emit ("#recv:" ++ e.type) s) h1 h2
 
-theorem asyncStep_queue (m : Machine) (u : UEnv) (e : Ev) (s : St) (hd : ¬ s.raiseDepth > m.maxIterations) :
-    (asyncStep m u e s).queue = (asyncProcessed m u e s).queue := by
-  unfold asyncStep asyncProcessed
-  rw [if_neg hd]
-  simp only
-  split
-  · rfl
-  · split <;> rfl
+theorem asyncProcess_queue (m : Machine) (u : UEnv) (e : Ev) (s : St) :
+    (asyncProcess m u e s).queue = (asyncProcessed m u e s).queue := by
+  rw [asyncProcess_eq, (asyncChainEnd_fields _ _).2.2.1]
+  split <;> rfl
 
-def asyncRaisedBy (m : Machine) (u : UEnv) (e : Ev) (s : St) : List QEv :=
-  (asyncStep m u e s).queue.drop s.queue.length
+theorem asyncStep_queue (m : Machine) (u : UEnv) (q : QEv) (s : St) (hd : ¬ s.raiseDepth > m.maxIterations) :
+    (asyncStep m u q s).queue = (asyncProcessed m u q.ev s).queue := by
+  rw [asyncStep_not_tripped m u q s hd, asyncProcess_queue]
 
-theorem asyncStep_queue_eq (m : Machine) (u : UEnv) (e : Ev) (s : St) (hd : ¬ s.raiseDepth > m.maxIterations) :
-    (asyncStep m u e s).queue = s.queue ++ asyncRaisedBy m u e s := by
-  obtain ⟨x, hx⟩ := asyncProcessed_queue m u e s
+def asyncRaisedBy (m : Machine) (u : UEnv) (q : QEv) (s : St) : List QEv :=
+  (asyncStep m u q s).queue.drop s.queue.length
+
+theorem asyncStep_queue_eq (m : Machine) (u : UEnv) (q : QEv) (s : St) (hd : ¬ s.raiseDepth > m.maxIterations) :
+    (asyncStep m u q s).queue = s.queue ++ asyncRaisedBy m u q s := by
+  obtain ⟨x, hx⟩ := asyncProcessed_queue m u q.ev s
   unfold asyncRaisedBy
-  rw [asyncStep_queue m u e s hd, hx]
+  rw [asyncStep_queue m u q s hd, hx]
   simp
 
 -- the sync drain ---------------------------------------------------------------------------------------------------
@@ -371,25 +372,53 @@ theorem drainSegs_records (m : Machine) (u : UEnv) : ∀ (budget : Nat) (s : St)
       · rw [drainSegs_not_running m u _ s hrun] at hp; simp at hp
 
 -- the async run loop ---------------------------------------------------------------------------------------------------
-theorem asyncLog_cons (m : Machine) (u : UEnv) (fuel : Nat) (s : St) (q : QEv) (rest : List QEv)
+theorem asyncLogQ_cons (m : Machine) (u : UEnv) (fuel : Nat) (s : St) (q : QEv) (rest : List QEv)
     (hq : s.queue = q :: rest) (hrun : s.status = "running") :
-    asyncLog m u (fuel + 1) s =
-      (if s.raiseDepth > m.maxIterations then [] else [q.ev]) ++
-        asyncLog m u fuel (asyncStep m u q.ev { s with queue := rest }) := by
+    asyncLogQ m u (fuel + 1) s =
+      (if asyncReceives m q s = true then [q] else []) ++
+        asyncLogQ m u fuel (asyncStep m u q { s with queue := rest }) := by
   cases s with
   | mk cfg hist queue status trace err ctx rd errors =>
     simp only at hq hrun
     subst hq; subst hrun
-    simp only [asyncLog, ne_eq, not_true_eq_false, if_false]
+    simp only [asyncLogQ, ne_eq, not_true_eq_false, if_false]
 
-theorem asyncLog_nil (m : Machine) (u : UEnv) (fuel : Nat) (s : St) (hq : s.queue = []) :
-    asyncLog m u (fuel + 1) s = [] := by
+theorem asyncLogQ_nil (m : Machine) (u : UEnv) (fuel : Nat) (s : St) (hq : s.queue = []) :
+    asyncLogQ m u (fuel + 1) s = [] := by
   cases s with
   | mk cfg hist queue status trace err ctx rd errors =>
     simp only at hq
     subst hq
-    simp only [asyncLog]
+    simp only [asyncLogQ]
     split <;> rfl
+
+theorem asyncLogQ_not_running (m : Machine) (u : UEnv) (fuel : Nat) (s : St) (h : s.status ≠ "running") :
+    asyncLogQ m u fuel s = [] := by
+  cases fuel with
+  | zero => rfl
+  | succ n => simp only [asyncLogQ, h, ne_eq, not_false_eq_true, if_true]
+
+theorem asyncReceives_eq_true (m : Machine) (q : QEv) (s : St) :
+    asyncReceives m q s = true ↔ ¬ (s.raiseDepth > m.maxIterations ∧ q.self = true) := by
+  unfold asyncReceives
+  by_cases hd : s.raiseDepth > m.maxIterations <;> cases hq : q.self <;> simp [hd, hq]
+
+/-- an EXTERNAL event is always handed to `on_event_received` / `_process_event` -/
+theorem asyncReceives_external (m : Machine) (q : QEv) (s : St) (hq : q.self = false) : asyncReceives m q s = true := by
+  unfold asyncReceives; simp [hq]
+
+theorem asyncLog_cons (m : Machine) (u : UEnv) (fuel : Nat) (s : St) (q : QEv) (rest : List QEv)
+    (hq : s.queue = q :: rest) (hrun : s.status = "running") :
+    asyncLog m u (fuel + 1) s =
+      (if asyncReceives m q s = true then [q.ev] else []) ++
+        asyncLog m u fuel (asyncStep m u q { s with queue := rest }) := by
+  unfold asyncLog
+  rw [asyncLogQ_cons m u fuel s q rest hq hrun, List.map_append]
+  split <;> rfl
+
+theorem asyncLog_nil (m : Machine) (u : UEnv) (fuel : Nat) (s : St) (hq : s.queue = []) :
+    asyncLog m u (fuel + 1) s = [] := by
+  unfold asyncLog; rw [asyncLogQ_nil m u fuel s hq]; rfl
 
 /-- nothing cuts this run of the loop short: the MODEL's fuel suffices, the machine keeps running while
     events are queued, the chain breaker never trips -/
@@ -400,13 +429,13 @@ def AsyncClean (m : Machine) (u : UEnv) : Nat → St → Prop
     | [] => True
     | q :: rest =>
       s.status = "running" ∧ ¬ s.raiseDepth > m.maxIterations ∧
-        AsyncClean m u fuel (asyncStep m u q.ev { s with queue := rest })
+        AsyncClean m u fuel (asyncStep m u q { s with queue := rest })
 
 theorem AsyncClean_cons (m : Machine) (u : UEnv) (fuel : Nat) (s : St) (q : QEv) (rest : List QEv)
     (hq : s.queue = q :: rest) :
     AsyncClean m u (fuel + 1) s ↔
       (s.status = "running" ∧ ¬ s.raiseDepth > m.maxIterations ∧
-        AsyncClean m u fuel (asyncStep m u q.ev { s with queue := rest })) := by
+        AsyncClean m u fuel (asyncStep m u q { s with queue := rest })) := by
   cases s with
   | mk cfg hist queue status trace err ctx rd errors =>
     simp only at hq
@@ -419,7 +448,7 @@ instance decAsyncClean (m : Machine) (u : UEnv) : ∀ (f : Nat) (s : St), Decida
     cases hq : s.queue with
     | nil => exact isTrue (by cases s; simp only at hq; subst hq; simp [AsyncClean])
     | cons q rest =>
-      have := decAsyncClean m u f (asyncStep m u q.ev { s with queue := rest })
+      have := decAsyncClean m u f (asyncStep m u q { s with queue := rest })
       exact decidable_of_iff _ (AsyncClean_cons m u f s q rest hq).symm
 
 def asyncRaised (m : Machine) (u : UEnv) : Nat → St → List Ev
@@ -428,14 +457,14 @@ def asyncRaised (m : Machine) (u : UEnv) : Nat → St → List Ev
     match s.queue with
     | [] => []
     | q :: rest =>
-      (asyncRaisedBy m u q.ev { s with queue := rest }).map (·.ev) ++
-        asyncRaised m u fuel (asyncStep m u q.ev { s with queue := rest })
+      (asyncRaisedBy m u q { s with queue := rest }).map (·.ev) ++
+        asyncRaised m u fuel (asyncStep m u q { s with queue := rest })
 
 theorem asyncRaised_cons (m : Machine) (u : UEnv) (fuel : Nat) (s : St) (q : QEv) (rest : List QEv)
     (hq : s.queue = q :: rest) :
     asyncRaised m u (fuel + 1) s =
-      (asyncRaisedBy m u q.ev { s with queue := rest }).map (·.ev) ++
-        asyncRaised m u fuel (asyncStep m u q.ev { s with queue := rest }) := by
+      (asyncRaisedBy m u q { s with queue := rest }).map (·.ev) ++
+        asyncRaised m u fuel (asyncStep m u q { s with queue := rest }) := by
   cases s with
   | mk cfg hist queue status trace err ctx rd errors =>
     simp only at hq
@@ -458,7 +487,7 @@ theorem async_fifo (m : Machine) (u : UEnv) : ∀ (fuel : Nat) (s : St), AsyncCl
   | zero =>
     intro s h
     simp only [AsyncClean] at h
-    refine ⟨by simp [asyncLog, asyncRaised, h], ?_⟩
+    refine ⟨by simp [asyncLog, asyncLogQ, asyncRaised, h], ?_⟩
     simp only [asyncDrain]
     split
     · exact h
@@ -473,8 +502,77 @@ theorem async_fifo (m : Machine) (u : UEnv) : ∀ (fuel : Nat) (s : St), AsyncCl
       obtain ⟨hrun, hd, hc⟩ := (AsyncClean_cons m u n s q rest hq).1 h
       obtain ⟨h1, h2⟩ := ih _ hc
       have hd' : ¬ ({ s with queue := rest } : St).raiseDepth > m.maxIterations := hd
-      rw [asyncLog_cons m u n s q rest hq hrun, asyncRaised_cons m u n s q rest hq, if_neg hd, h1,
-        asyncStep_queue_eq m u q.ev _ hd', asyncDrain_cons m u n s q rest hq hrun]
+      have hrecv : asyncReceives m q s = true := (asyncReceives_eq_true m q s).2 (fun hh => hd hh.1)
+      rw [asyncLog_cons m u n s q rest hq hrun, asyncRaised_cons m u n s q rest hq, if_pos hrecv, h1,
+        asyncStep_queue_eq m u q _ hd', asyncDrain_cons m u n s q rest hq hrun]
       exact ⟨by simp, h2⟩
+
+open XSM.Term in
+/-- **external events: exactly once, in order, UNCONDITIONALLY** (any fuel, any counter, breaker tripping
+    or not, macrosteps failing or not, machine completing or not): the external events the run loop
+    received, followed by the external events still queued when it returns, are exactly the external
+    events that were queued when it started — same events, same order, none lost, none duplicated. -/
+theorem async_external_split (m : Machine) (u : UEnv) : ∀ (fuel : Nat) (s : St),
+    extOf (asyncLogQ m u fuel s) ++ extOf (asyncDrain m u fuel s).queue = extOf s.queue := by
+  intro fuel
+  induction fuel with
+  | zero =>
+    intro s
+    simp only [asyncLogQ, asyncDrain]
+    split <;> simp [extOf]
+  | succ n ih =>
+    intro s
+    by_cases hrun : s.status = "running"
+    · cases hq : s.queue with
+      | nil => rw [asyncLogQ_nil m u n s hq, asyncDrain_nil m u n s hq, hq]; rfl
+      | cons q rest =>
+        rw [asyncLogQ_cons m u n s q rest hq hrun, asyncDrain_cons m u n s q rest hq hrun]
+        have hk := asyncStep_keeps_queued_external m u q { s with queue := rest }
+        have hi := ih (asyncStep m u q { s with queue := rest })
+        rw [hk] at hi
+        have hrest : extOf ({ s with queue := rest } : St).queue = extOf rest := rfl
+        rw [hrest] at hi
+        cases hself : q.self with
+        | false =>
+          rw [if_pos (asyncReceives_external m q s hself)]
+          unfold extOf at hi ⊢
+          rw [List.filter_append, List.append_assoc, hi]
+          simp [hself]
+        | true =>
+          unfold extOf at hi ⊢
+          rw [List.filter_append, List.append_assoc, hi]
+          split <;> simp [hself]
+    · rw [asyncLogQ_not_running m u _ s hrun, asyncDrain_not_running m u _ hrun]; rfl
+
+-- what the async loop writes for an event it processes ---------------------------------------------------------
+theorem asyncProcess_trace (m : Machine) (u : UEnv) (e : Ev) (s : St) :
+    (asyncProcess m u e s).trace = (asyncProcessed m u e s).trace := by
+  rw [asyncProcess_eq, (asyncChainEnd_fields _ _).2.2.2.2.1]
+  split <;> rfl
+
+theorem asyncProcess_adds (m : Machine) (u : UEnv) (e : Ev) (s : St) :
+    Adds (MacroRec e) (emit ("#recv:" ++ e.type) s) (asyncProcess m u e s) := by
+  have h : Adds (MacroRec e) (emit ("#recv:" ++ e.type) s) (asyncProcessed m u e s) := by
+    unfold asyncProcessed
+    exact Adds.trans
+      ((processEvent_adds (hooksAsync u m) (hooksAsync_traceOK u m) .async m u e _).mono (fun _ h => Or.inl h))
+      ((transientLoop_adds (hooksAsync u m) (hooksAsync_traceOK u m) .async m u _ _).mono (fun _ h => Or.inr h))
+  obtain ⟨t, ht, hp⟩ := h
+  exact ⟨t, by rw [asyncProcess_trace, ht], hp⟩
+
+/-- the records of the async macrostep of `e` after its `#recv` record -/
+def asyncMacroRecords (m : Machine) (u : UEnv) (e : Ev) (s : St) : List String :=
+  delta (emit ("#recv:" ++ e.type) s) (asyncProcess m u e s)
+
+/-- an event the run loop processes shows in the trace as `#recv:e` followed by its own records only -/
+theorem asyncProcess_chron (m : Machine) (u : UEnv) (e : Ev) (s : St) :
+    (asyncProcess m u e s).chron = s.chron ++ ("#recv:" ++ e.type) :: asyncMacroRecords m u e s ∧
+    ∀ r ∈ asyncMacroRecords m u e s, MacroRec e r := by
+  refine ⟨?_, (asyncProcess_adds m u e s).chron.2⟩
+  rw [(asyncProcess_adds m u e s).chron.1, chron_emit]
+  simp [asyncMacroRecords]
+
+theorem asyncBase_chron (m : Machine) (s : St) : (Term.asyncBase m s).chron = s.chron := by
+  unfold Term.asyncBase; split <;> rfl
 
 end XSM
